@@ -1,6 +1,7 @@
 import GlonaxModel.Driver.C07
 import GlonaxModel.Driver.Hcu
 import GlonaxModel.Driver.Wire
+import GlonaxModel.Driver.Session
 open Glonax.Driver
 
 def dispatch (prop : String) (inp out : List String) : Verdict :=
@@ -10,6 +11,10 @@ def dispatch (prop : String) (inp out : List String) : Verdict :=
   | "C02" => C02.check inp out
   | "C17" => C17.check inp out
   | "C13" => C13.check inp out
+  | "C03" => SessDrv.check "C03" inp out
+  | "C04" => SessDrv.check "C04" inp out
+  | "C05" => SessDrv.check "C05" inp out
+  | "C14" => SessDrv.check "C14" inp out
   | _ => .bad s!"unknown property {prop}"
 
 structure Tally where
